@@ -71,15 +71,18 @@ type Case struct {
 
 func (c Case) Source() string { return strings.Join(c.Stmts, "\n") + "\n" }
 
-// commands that only compute in memory (or read the file system)
+// commands that only compute in memory (or read the file system). `pipe` and
+// `!pipe` only appear in templates that close every pipe they open: a named
+// pipe left open makes any later reader of it (or `get-type <name>`) block by
+// design.
 var allow = []string{
-	"!", "!and", "!or", "!if", "!match", "!regexp", "!escape", "!eschtml", "!escurl", "!set", "!global", "!pipe", "!catch",
+	"!", "!and", "!or", "!if", "!match", "!regexp", "!escape", "!eschtml", "!escurl", "!set", "!global", "!catch",
 	"!function", "!alias", "!private", "!test", "!base64", "!gz", "!bz2", "!summary", "!f", "!g", "!rx",
 	"2darray", "=", "a", "addheading", "alias", "alter", "and", "append", "args", "base64", "bexists", "break",
 	"cast", "catch", "continue", "count", "cpuarch", "cpucount", "datetime", "err", "escape", "esccli", "eschtml", "escurl",
 	"exitnum", "f", "false", "fexec", "fid-list", "foreach", "format", "function", "g", "get-type", "global", "gz",
 	"if", "is-null", "ja", "jsplit", "left", "let", "list.case", "map", "match", "method", "mjoin", "msort", "mtac",
-	"murex-parser", "null", "or", "os", "out", "pipe", "prefix", "prepend", "pretty", "printf", "private", "regexp", "return",
+	"murex-parser", "null", "or", "os", "out", "prefix", "prepend", "pretty", "printf", "private", "regexp", "return",
 	"right", "round", "runmode", "runtime", "rx", "set", "struct-keys", "suffix", "summary", "switch", "ta", "tabulate", "test",
 	"tout", "true", "try", "tryerr", "trypipe", "trypipeerr", "type", "unsafe", "unset", "version", "which", "~>", "history",
 	"jobs", "autocomplete", "rand", "time",
@@ -116,7 +119,7 @@ var templates = []string{
 	"function vbar (a: int, b: str [x]) { out $a $b }\nvbar %s %s",
 	"function vbar (a: int \"d\", !b: bool) { out $a }\nvbar %s",
 	"pipe vp1\n!pipe vp1\n!pipe vp1", "pipe vp1\npipe vp1\n!pipe vp1", "!pipe vp2", "pipe vp1\nout x -> <vp1>\n!pipe vp1\n<vp1>",
-	"pipe vp2 %s %s\n!pipe vp2",
+	
 	"vfoo = %s\n$vfoo.a.b = %s\nout $vfoo", "vfoo = %s\nout $vfoo[%s]", "vfoo = %s\nout @vfoo[%s]", "vfoo = %s\n$vfoo -> [%s]",
 	"set %s vfoo = %s", "global %s vfoo = %s", "(%s %s %s)", "(%s)", "out ${%s}", "out @{%s}", "out \"${ %s }\"",
 	"switch %s { case %s { out a } default { out b } }", "if { %s } then { out y } else { out n }", "if %s %s %s",
